@@ -457,6 +457,25 @@ def prop_c17invalid(d, x, y, why):
             outcomes.append((how, "rejected"))
         except Exception as e:
             return f"FAIL {how}: {why} point ends in {type(e).__name__}"
+    # the same coordinates as point OBJECTS that live on another curve (same p and a, the b that makes them fit): the key's
+    # curve decides, not the curve the object claims
+    if not valid and 0 <= x < c["p"] and 0 <= y < c["p"]:
+        b2 = (y * y - (x * x * x + c["a"] * x)) % c["p"]
+        other = ellipticcurve.CurveFp(c["p"], c["a"], b2)
+        for what, pt in (("PointJacobi", PointJacobi(other, x, y, 1)), ("Point", Point(other, x, y))):
+            try:
+                vk = keys.VerifyingKey.from_public_point(pt, cv)
+            except (errors.MalformedPointError, ecdh.InvalidCurveError) as e:
+                continue
+            except Exception as e:
+                return f"FAIL {why} point as {what} object of another curve ends in {type(e).__name__}"
+            try:
+                e2 = ecdh.ECDH(cv, keys.SigningKey.from_secret_exponent(1 + (x + y) % (n - 1), cv))
+                e2.load_received_public_key(vk)
+                e2.generate_sharedsecret_bytes()
+            except (errors.MalformedPointError, ecdh.InvalidCurveError, ecdh.InvalidSharedSecretError):
+                pass
+            return f"FAIL {why} point accepted as public key when handed over as a {what} object that lives on another curve"
     for how, o in outcomes:
         if valid and o != "accepted":
             return f"FAIL valid point rejected by {how}"
